@@ -221,12 +221,18 @@ hs_parens = (Suppress(Literal("(")) + hs_filter + Suppress(Literal(")"))).setPar
     lambda toks: toks[0]
 )
 hs_term = hs_parens | hs_missing | hs_cmp | hs_has
-hs_condAnd = (hs_term + ZeroOrMore(Literal("and") + hs_term)).setParseAction(
-    lambda toks: FilterBinary("and", toks[0], toks[2]) if len(toks) > 1 else toks[0]
-)
-hs_condOr = (hs_condAnd + ZeroOrMore(Literal("or") + hs_condAnd)).setParseAction(
-    lambda toks: FilterBinary("or", toks[0], toks[2]) if len(toks) > 1 else toks[0]
-)
+
+
+def _fold_binary(toks):
+    # toks is: operand, (operator, operand)*; fold every operand, left to right
+    node = toks[0]
+    for i in range(1, len(toks) - 1, 2):
+        node = FilterBinary(toks[i], node, toks[i + 1])
+    return node
+
+
+hs_condAnd = (hs_term + ZeroOrMore(Literal("and") + hs_term)).setParseAction(_fold_binary)
+hs_condOr = (hs_condAnd + ZeroOrMore(Literal("or") + hs_condAnd)).setParseAction(_fold_binary)
 hs_filter <<= hs_condOr
 
 
